@@ -52,3 +52,60 @@ Proof.
   unfold holds_blocks. intros H E. rewrite E in H.
   destruct (b_obs k) as [[|o r]|]; try discriminate. reflexivity.
 Qed.
+
+(* ---- the checker's declarative cut agrees with the file shape of the theorem ------------
+
+   For a file  pre ++ [name_1] :: l1 ++ [name_2] :: l2 ++ post  (the shape quantified over in
+   C18_blocks_are_samples_lines) the sections the checker cuts out by header are l1 and l2. *)
+From HV Require Import C18_Proofs.
+
+Lemma take_section_stop l rest :
+  Forall not_header l -> (rest = [] \/ exists h r, rest = [h] :: r) -> take_section (l ++ rest) = l.
+Proof.
+  intros Hl Hr. induction Hl as [|x l Hx Hl IH]; cbn [app take_section].
+  - destruct Hr as [->|[h [r ->]]]; reflexivity.
+  - assert (E : is_header x = false).
+    { destruct x as [|a [|b t]]; try reflexivity. exfalso. apply (Hx a). reflexivity. }
+    rewrite E. f_equal. exact IH.
+Qed.
+
+Lemma section_of_skip hdr pre rest :
+  Forall (fun l => l <> [hdr]) pre -> section_of hdr (pre ++ rest) = section_of hdr rest.
+Proof.
+  induction 1 as [|x pre Hx Hpre IH]; cbn [app section_of]; [reflexivity|].
+  destruct x as [|a [|b t]]; try exact IH.
+  destruct (str_eqb a hdr) eqn:E; [apply str_eqb_spec in E; subst; congruence|exact IH].
+Qed.
+
+Lemma section_of_here hdr l rest :
+  Forall not_header l -> (rest = [] \/ exists h r, rest = [h] :: r) ->
+  section_of hdr ([hdr] :: l ++ rest) = Some l.
+Proof.
+  intros Hl Hr. cbn [section_of]. rewrite str_eqb_refl. f_equal. apply take_section_stop; assumption.
+Qed.
+
+Lemma sfx_differ name : name ++ sfx_1 <> name ++ sfx_2.
+Proof. intros H. apply app_inv_head in H. discriminate. Qed.
+
+Theorem sections_of_sample name pre l1 l2 post :
+  Forall (foreign_header name) pre -> Forall not_header l1 -> Forall not_header l2 ->
+  (post = [] \/ exists h r, post = [h] :: r) ->
+  let file := pre ++ [name ++ sfx_1] :: l1 ++ [name ++ sfx_2] :: l2 ++ post in
+  section_of (name ++ sfx_1) file = Some l1 /\ section_of (name ++ sfx_2) file = Some l2.
+Proof.
+  intros Hpre H1 H2 Hpost file. unfold file.
+  assert (Fpre : forall sfx d, sfx = [c_us; d] -> d <> c_us -> Forall (fun l => l <> [name ++ sfx]) pre).
+  { intros sfx d -> Hd. eapply Forall_impl; [|exact Hpre]. intros l Hf Heq.
+    destruct (Hf _ Heq) as [_ Hn]. apply Hn. apply before_last_sfx. exact Hd. }
+  split.
+  - rewrite section_of_skip by (apply (Fpre sfx_1 c_1 eq_refl); unfold c_1, c_us; lia).
+    apply section_of_here; [exact H1|]. right. eexists. eexists. reflexivity.
+  - rewrite section_of_skip by (apply (Fpre sfx_2 c_2 eq_refl); unfold c_2, c_us; lia).
+    change ([name ++ sfx_1] :: l1 ++ [name ++ sfx_2] :: l2 ++ post)
+      with (([name ++ sfx_1] :: l1) ++ [name ++ sfx_2] :: l2 ++ post).
+    rewrite section_of_skip.
+    + apply section_of_here; assumption.
+    + constructor.
+      * intros H. inversion H as [H']. apply (sfx_differ name). exact H'.
+      * eapply Forall_impl; [|exact H1]. intros l Hn. apply Hn.
+Qed.
